@@ -5,7 +5,7 @@
 (*                                                                                                *)
 (*   Configs  one trigger column K: DEFAULT x every recalcDeps \subseteq {A, B, F, K},            *)
 (*            NEVER / MANUAL_UPDATES x {{}, {A, K}} (recalcDeps must be ignored), each with the   *)
-(*            formula variants Fms; two trigger columns K, L: the pairs of Configs2               *)
+(*            formula variants Fms; two trigger columns K, L: the first TwoCols pairs of Pairs2   *)
 (*   bundles  one action out of Single(state), or a pair <<a1, a2>> with a1 from First(state) and *)
 (*            a2 from the reduced alphabet Red(state after a1), or one of a few pairs with a      *)
 (*            schema change (SchemaPairs)                                                         *)
@@ -25,9 +25,9 @@
 (* of the bound is executed.  The environment variables C15_PART / C15_PARTS split the            *)
 (* configurations over several TLC processes.                                                     *)
 (*                                                                                                *)
-(* Every transition is checked against the relation (SpecSane: the reference outcome is           *)
-(* admissible, so the relation is satisfiable on every step of the bounded model), and the        *)
-(* history that leads to it is printed as one JSON line for the harness to replay on the engine.  *)
+(* SpecSane: the reference outcome of every step into a new state is admissible, so the relation  *)
+(* is satisfiable there.  The history that leads to a transition is printed as one JSON line for  *)
+(* the harness to replay on the engine.                                                           *)
 EXTENDS Trigger, TLC, Json, IOUtils, SequencesExt, FiniteSetsExt
 CONSTANTS Depth, MaxActs, Fms, Abstract, FullFirst, Starts, MaxRow, TwoCols
 
@@ -38,14 +38,14 @@ Kc(id, when, deps, fm) == [id |-> id, when |-> when, deps |-> SetToSeq(deps), fm
 Configs1 ==
   {<<Kc("K", DEFAULT, d, f)>> : d \in SUBSET {"A", "B", "F", "K"}, f \in Fms} \cup
   {<<Kc("K", w, d, f)>> : w \in {NEVER, MANUAL}, d \in {{}, {"A", "K"}}, f \in Fms}
-Configs2 ==
-  IF ~TwoCols THEN {} ELSE
-  {<<Kc("K", DEFAULT, {"A"}, 1),      Kc("L", MANUAL, {}, 1)>>,
-   <<Kc("K", DEFAULT, {"A", "K"}, 1), Kc("L", DEFAULT, {"F"}, 1)>>,
-   <<Kc("K", MANUAL, {}, 1),          Kc("L", NEVER, {}, 1)>>,
-   <<Kc("K", DEFAULT, {"B"}, 1),      Kc("L", DEFAULT, {"A", "B"}, 0)>>,
-   <<Kc("K", MANUAL, {}, 0),          Kc("L", DEFAULT, {"L"}, 1)>>,
-   <<Kc("K", DEFAULT, {"F"}, 1),      Kc("L", MANUAL, {"A"}, 1)>>}
+Pairs2 ==
+  <<<<Kc("K", DEFAULT, {"A"}, 1),      Kc("L", MANUAL, {}, 1)>>,
+    <<Kc("K", DEFAULT, {"A", "K"}, 1), Kc("L", DEFAULT, {"F"}, 1)>>,
+    <<Kc("K", MANUAL, {}, 1),          Kc("L", NEVER, {}, 1)>>,
+    <<Kc("K", DEFAULT, {"B"}, 1),      Kc("L", DEFAULT, {"A", "B"}, 0)>>,
+    <<Kc("K", MANUAL, {}, 0),          Kc("L", DEFAULT, {"L"}, 1)>>,
+    <<Kc("K", DEFAULT, {"F"}, 1),      Kc("L", MANUAL, {"A"}, 1)>>>>
+Configs2 == {Pairs2[i] : i \in 1..TwoCols}         \* the first TwoCols pairs
 AllConfigs == SetToSeq(Configs1 \cup Configs2)
 Part    == IF "C15_PART" \in DOMAIN IOEnv THEN atoi(IOEnv.C15_PART) ELSE 0
 Parts   == IF "C15_PARTS" \in DOMAIN IOEnv THEN atoi(IOEnv.C15_PARTS) ELSE 1
@@ -108,8 +108,8 @@ Bundles(cfg, obs, first, room) ==
   IN IF first THEN all ELSE {b \in all : \A n \in 1..Len(b) : b[n].op # "Ren"}
 
 (* ---- the machine ------------------------------------------------------------------------------ *)
-VARIABLES cfg, start, obs, sch, hist, acts
-vars == <<cfg, start, obs, sch, hist, acts>>
+VARIABLES cfg, start, obs, sch, hist, acts, last
+vars == <<cfg, start, obs, sch, hist, acts, last>>
 
 Parity(bundle, op) == Cardinality({n \in 1..Len(bundle) : bundle[n].op = op}) % 2
 
@@ -119,6 +119,7 @@ Init == /\ cfg \in Configs
         /\ sch = <<0, 0>>
         /\ hist = <<>>
         /\ acts = 0
+        /\ last = <<>>
 
 Next ==
   /\ Len(hist) < Depth /\ acts < MaxActs
@@ -127,14 +128,16 @@ Next ==
        /\ sch' = <<(sch[1] + Parity(bundle, "Ren")) % 2, (sch[2] + Parity(bundle, "Mod")) % 2>>
        /\ hist' = Append(hist, bundle)
        /\ acts' = acts + Len(bundle)
-       \* SpecSane on every transition (also those the VIEW folds into a known state)
-       /\ Assert(Step(cfg, obs, bundle, obs'), <<"SpecSane", cfg, obs, bundle>>)
+       /\ last' = <<[before |-> obs, bundle |-> bundle]>>
        /\ PrintT(ToJson([cfg |-> cfg, start |-> start, init |-> StartTable(start, Len(cfg)), steps |-> hist']))
   /\ UNCHANGED <<cfg, start>>
 Spec == Init /\ [][Next]_vars
 
 AbsRow(row) == [r |-> row.r, A |-> row.A, B |-> row.B, e |-> [j \in 1..Len(row.k) |-> row.k[j] = SUPPLY]]
 View == IF Abstract THEN <<cfg, start, sch, [i \in 1..Len(obs) |-> AbsRow(obs[i])], Len(hist), acts>> ELSE vars
+
+\* the reference outcome of the last step is admissible: the relation is satisfiable there
+SpecSane == last = <<>> \/ Step(cfg, last[1].before, last[1].bundle, obs)
 
 \* a reachable state is a table of the model: row ids ascending, F = 10 * A
 TypeOK == /\ \A i \in 1..Len(obs) : obs[i].F = 10 * obs[i].A /\ obs[i].r \in 1..MaxRow
